@@ -699,6 +699,7 @@ func genCases(args []string) {
 	reps := fs.Int("reps", 2, "option sets per shape")
 	tier := fs.String("tier", "quick", "quick|thorough")
 	tbl := fs.String("tables", "", "ndjson of TLC-enumerated table shapes (rows x keys, present/absent)")
+	het := fs.String("hetero", "", "ndjson of TLC-enumerated column profiles (cell kind per row)")
 	fs.Parse(args)
 	r := rand.New(rand.NewSource(seed()))
 	w := bufio.NewWriterSize(os.Stdout, 1<<20)
@@ -726,6 +727,14 @@ func genCases(args []string) {
 			ok |= 8 // sort
 		}
 		emit(tc.tree, optsOf(ok), tc.p, "table")
+	}
+	// (0b) aligned tables with heterogeneous columns
+	for i, tc := range heteroCases(*het, quick) {
+		ok := 64 * (i & 1)
+		if (i/2)&1 == 1 {
+			ok |= 8
+		}
+		emit(tc.tree, optsOf(ok), tc.p, "hetero")
 	}
 	// (1) TLC shapes x leaves x options: every shape meets every option bit in both polarities over the run
 	var shapes []shape
@@ -988,6 +997,127 @@ func tableCases(path string, quick bool) []tableCase {
 				ps[0] = pcfg{W: 80, D: 2, Al: true}
 			}
 			res = append(res, tableCase{t, ps})
+		}
+	})
+	return res
+}
+
+// ---------------------------------------------------------------- aligned tables with heterogeneous columns (C04 and C10)
+type heteroProfile struct {
+	Col []string `json:"col"`
+}
+
+// a cell of the given kind; v varies the content
+func heteroCell(kind string, v int) (M, bool) {
+	switch kind {
+	case "s":
+		return []M{aInt(1), aStr("x"), aInt(333), aStr("yy"), aBool(true), aInt(22)}[v%6], true
+	case "a":
+		return []M{aArr(aInt(1), aInt(2)), aArr(aInt(1), aInt(2), aInt(3)), aArr(aStr("p"), aInt(7))}[v%3], true
+	case "m":
+		return []M{aObj("a", aInt(1)), aObj("a", aInt(1), "b", aInt(5)), aObj("b", aStr("q"), "c c", aInt(4))}[v%3], true
+	case "ea":
+		return aArr(), true
+	case "em":
+		return aObj(), true
+	case "n2":
+		return []M{aArr(aArr(aInt(1)), aObj("a", aArr(aInt(2)))), aObj("a", aObj("b", aInt(1)), "c", aArr(aInt(1), aArr(aInt(2)))),
+			aArr(aArr(aInt(1), aInt(2)), aArr(aInt(3)))}[v%3], true
+	}
+	return nil, false // "x": missing
+}
+
+// depth as pretty counts it (pretty/build.go: a leaf and an empty container have depth 0)
+func prettyDepth(t M) int {
+	d := 0
+	switch t["t"] {
+	case "arr", "obj":
+		for _, e := range t["v"].([]any) {
+			if x := prettyDepth(e.(M)) + 1; x > d {
+				d = x
+			}
+		}
+	}
+	return d
+}
+
+var heteroKinds = []string{"s", "a", "m", "ea", "em", "n2", "x"}
+
+func heteroCases(path string, quick bool) []tableCase {
+	if path == "" {
+		return nil
+	}
+	f, err := os.Open(path)
+	if err != nil {
+		panic(err)
+	}
+	var res []tableCase
+	i := 0
+	readLines(f, func(l []byte) {
+		var hp heteroProfile
+		if err := json.Unmarshal(l, &hp); err != nil {
+			panic(err)
+		}
+		i++
+		variants := 1
+		if !quick {
+			variants = 2
+		}
+		for v := 0; v < variants; v++ {
+			for rk := 0; rk < 2; rk++ { // 0: rows are arrays, 1: rows are maps
+				first := (i+v+rk)%2 == 0 // the profiled column comes first / second
+				rows := make([]any, len(hp.Col))
+				for ri, kind := range hp.Col {
+					c1, ok1 := heteroCell(kind, i+ri+v)
+					c2, ok2 := heteroCell(heteroKinds[(i/2+ri*3+v+rk)%7], i+ri*2+v+1)
+					c3, _ := heteroCell("s", i+ri+v+2)
+					if !first {
+						c1, ok1, c2, ok2 = c2, ok2, c1, ok1
+					}
+					if rk == 0 {
+						// array rows: a missing cell can only shorten the row; inside the row it is written as null
+						cells := []any{}
+						switch {
+						case ok1 && ok2:
+							cells = append(cells, c1, c2, c3)
+						case ok1:
+							cells = append(cells, c1)
+						case ok2:
+							cells = append(cells, aNull(), c2, c3)
+						}
+						rows[ri] = aArr(cells...)
+					} else {
+						kv := []any{}
+						if ok1 {
+							kv = append(kv, "k", c1)
+						}
+						if ok2 {
+							kv = append(kv, "m m", c2)
+						}
+						if (i+ri)%4 != 0 {
+							kv = append(kv, "z", c3)
+						}
+						rows[ri] = aObj(kv...)
+					}
+				}
+				var t M = aArr(rows...)
+				d := prettyDepth(t)
+				if d < 1 {
+					d = 1
+				}
+				if d > 8 {
+					d = 8
+				}
+				if (i+v)%6 == 0 {
+					t = aObj("rows", t, "n", aInt(int64(len(rows))))
+				}
+				// the align path needs: not flat (depth >= MaxDepth or too wide), depth <= MaxDepth, table fits Width
+				ps := []pcfg{{W: 200, D: d, Al: true}, {W: 80, D: d, Al: true}}
+				if (i+v)%3 == 0 {
+					ps[1] = pcfg{W: 48, D: d + 1, Al: true} // flat fails by width only
+				}
+				res = append(res, tableCase{t, ps})
+			}
 		}
 	})
 	return res
